@@ -26,6 +26,16 @@ def of_str(s, cap):
 
 
 def inw(j, w): return z3.ULT(bv(j), w.ln)
+
+
+def positions(w):
+    """[(guard, byte)] over the bytes of window w.  A window at a symbolic offset is enumerated by *absolute* buffer
+    position (the buffer starts at 0 and has w.cap bytes), so that every array read has a constant index."""
+    off = z3.simplify(w.off)
+    if z3.is_bv_value(off):
+        return [(inw(j, w), w.at(j)) for j in range(w.cap)]
+    end = w.off + w.ln
+    return [(z3.And(z3.ULE(w.off, bv(k)), z3.ULT(bv(k), end)), z3.Select(w.base, bv(k))) for k in range(w.cap)]
 def digit(b): return z3.And(z3.UGE(b, 48), z3.ULE(b, 57))
 def alpha(b): return z3.Or(z3.And(z3.UGE(b, 65), z3.ULE(b, 90)), z3.And(z3.UGE(b, 97), z3.ULE(b, 122)))
 def dns_char(b): return z3.Or(digit(b), alpha(b), b == 45, b == 46)
@@ -41,14 +51,19 @@ def first_index(w, pred):
     _ctr[0] += 1
     idx = z3.BitVec(f'spec_idx!{_ctr[0]}', 64)
     ax = [z3.ULE(idx, w.ln), z3.Implies(z3.ULT(idx, w.ln), pred(w.at(idx)))]
-    for j in range(w.cap):
-        ax.append(z3.Implies(z3.And(z3.ULT(bv(j), idx), inw(j, w)), z3.Not(pred(w.at(j)))))
+    off = z3.simplify(w.off)
+    if z3.is_bv_value(off):
+        for j in range(w.cap):
+            ax.append(z3.Implies(z3.And(z3.ULT(bv(j), idx), inw(j, w)), z3.Not(pred(w.at(j)))))
+    else:
+        for k in range(w.cap):
+            ax.append(z3.Implies(z3.And(z3.ULE(w.off, bv(k)), z3.ULT(bv(k), w.off + idx)), z3.Not(pred(z3.Select(w.base, bv(k))))))
     AXIOMS.append(z3.And(*ax))
     return z3.ULT(idx, w.ln), idx
 
 
 def all_bytes(w, pred):
-    return z3.And(*[z3.Implies(inw(j, w), pred(w.at(j))) for j in range(w.cap)]) if w.cap else T
+    return z3.And(*[z3.Implies(gd, pred(b)) for gd, b in positions(w)]) if w.cap else T
 
 
 def no_byte(w, val):
@@ -57,7 +72,7 @@ def no_byte(w, val):
 
 def port_digits(w):
     """1*5DIGIT"""
-    return z3.And(z3.UGE(w.ln, 1), z3.ULE(w.ln, 5), all_bytes(W(w.base, w.off, w.ln, min(w.cap, 5)), digit))
+    return z3.And(z3.UGE(w.ln, 1), z3.ULE(w.ln, 5), *[z3.Implies(inw(j, w), digit(w.at(j))) for j in range(5)])
 
 
 def port_value_fits_u16(w):
